@@ -402,6 +402,8 @@ pub struct World {
     full: Option<u8>,
     buf: Vec<u8>,
     layout: u8,
+    /// one more sender per listener, for a registration made after the world was built
+    late_tx: [Option<mpsc::Sender<Item>>; NL],
 }
 
 #[derive(Clone, Copy, PartialEq, Eq, Hash, Debug, Default)]
@@ -459,8 +461,7 @@ impl World {
         if let Some((l, Stat::ClosedAfter)) = cfg.special {
             rx[l as usize] = None;
         }
-        drop(tx);
-        World { t, rx, full, buf: Vec::with_capacity(256), layout: cfg.layout }
+        World { t, rx, full, buf: Vec::with_capacity(256), layout: cfg.layout, late_tx: tx }
     }
 
     pub fn feed(&mut self, p: Pkt) -> Obs {
@@ -494,6 +495,197 @@ impl World {
         }
         o
     }
+}
+
+// ───────────────────────────── concurrent registration / delivery ─────────────────────────────
+//
+// The socket read loop delivers packets while signaling tasks (a renegotiation) register and clear
+// receivers. Two real threads under `crate::csched` (hook H6 covers the registry mutex): thread 1
+// delivers one packet, thread 2 performs one registration operation; every order of passing the
+// mutex's lock / unlock points is executed. Oracle: linearizability against the real transport run
+// sequentially - who received the packet, who receives the SAME packet when it is delivered once more
+// afterwards, and which SSRCs are bound, must be what one of the two sequential orders gives.
+
+pub type ConcOutcome = (u8, u8, u8, bool);
+
+/// a registration made on an existing world (`late_tx` keeps one sender per listener)
+fn late_op_fn(w: &World, o: Op) -> Box<dyn FnOnce() + Send + 'static> {
+    let tp = &w.t as *const RtpTransport as usize;
+    // SAFETY (both closures): the world outlives the threads - run_schedule joins them before it
+    // returns; on a deadlock the caller leaks the world
+    if o.k == Kind::Clear {
+        return Box::new(move || {
+            let _ = unsafe { &*(tp as *const RtpTransport) }.clear_listeners();
+        });
+    }
+    let s = w.late_tx[o.l as usize].as_ref().expect("listener in use").clone();
+    Box::new(move || {
+        let t = unsafe { &*(tp as *const RtpTransport) };
+        match o.k {
+            Kind::Ssrc(i) => t.register_listener_sync(SSRC[i as usize], s),
+            Kind::Rid(i) => t.register_rid_listener(RID_STR[i as usize].to_string(), s),
+            Kind::Mid(i) => t.register_mid_listener(MID_STR[i as usize].to_string(), s),
+            Kind::PtList(m) => t.register_payload_list_listener((0..3).filter(|i| m & (1 << i) != 0).map(|i| PT[i]).collect(), s),
+            Kind::Pt(i) => t.register_pt_listener(PT[i as usize], s),
+            Kind::Prov => t.register_provisional_listener(s),
+            Kind::Clear => unreachable!(),
+        }
+    })
+}
+
+fn feed_fn(w: &World, p: Pkt) -> Box<dyn FnOnce() + Send + 'static> {
+    let tp = &w.t as *const RtpTransport as usize;
+    let wire = wires_layout(w.layout)[p.idx() as usize].clone();
+    Box::new(move || {
+        let t = unsafe { &*(tp as *const RtpTransport) };
+        let mut buf = Vec::with_capacity(256);
+        super::poll_ready(t.receive(wire, src_addr(), &mut buf));
+    })
+}
+
+impl World {
+    /// what is queued right now, per listener (bit mask), without feeding anything
+    fn drain(&mut self) -> u8 {
+        let mut d = 0u8;
+        for l in 0..NL {
+            if let Some(rx) = &mut self.rx[l] {
+                while rx.try_recv().is_ok() {
+                    d |= 1 << l;
+                }
+            }
+        }
+        d
+    }
+}
+
+/// `order`: None = the two threads under `schedule`; Some(true) = packet then operation
+/// sequentially; Some(false) = operation then packet.
+pub fn conc_run(cfg: &Cfg, p: Pkt, late: Op, order: Option<bool>, schedule: &[usize], conn: &Arc<IceConn>) -> (Option<crate::csched::Execution>, ConcOutcome) {
+    let mut w = World::build(cfg, conn);
+    let mut exec = None;
+    match order {
+        Some(first_packet) => {
+            let (a, b) = (feed_fn(&w, p), late_op_fn(&w, late));
+            if first_packet {
+                a();
+                b();
+            } else {
+                b();
+                a();
+            }
+        }
+        None => {
+            let bodies = vec![feed_fn(&w, p), late_op_fn(&w, late)];
+            let x = crate::csched::run_schedule(bodies, schedule);
+            if x.deadlock {
+                std::mem::forget(w);
+                return (Some(x), (0, 0, 0, true));
+            }
+            exec = Some(x);
+        }
+    }
+    let first = w.drain();
+    let probe = w.feed(p);
+    (exec, (first, probe.delivered, probe.bound, probe.foreign))
+}
+
+#[derive(Default)]
+pub struct ConcStats {
+    pub cases: u64,
+    pub schedules: u64,
+    pub racy_cases: u64,
+    pub viol: Vec<(String, String, Value)>,
+}
+
+pub fn conc_json(cfg: &Cfg, p: Pkt, late: Op, schedule: &[usize]) -> Value {
+    json!({"part": "demux-concurrent", "cfg": cfg.json(), "packet": p.json(), "late_op": late.name(), "schedule": schedule})
+}
+
+pub fn conc_cases(thorough: bool) -> Vec<(Cfg, Pkt, Op)> {
+    let op = |l: u8, k: Kind| Op { l, k };
+    // initial registries: one or two registrations for listener 0 (and 2), optionally with listener 0's
+    // receiver already gone
+    let bases: Vec<Vec<Op>> = vec![
+        vec![op(0, Kind::Ssrc(0))],
+        vec![op(0, Kind::Rid(0))],
+        vec![op(0, Kind::Mid(0))],
+        vec![op(0, Kind::PtList(1))],
+        vec![op(0, Kind::Prov)],
+        vec![op(0, Kind::Ssrc(0)), op(2, Kind::PtList(1))],
+        vec![op(0, Kind::Mid(0)), op(2, Kind::Prov)],
+        vec![op(0, Kind::PtList(1)), op(2, Kind::Prov)],
+    ];
+    let lates = [op(1, Kind::Ssrc(0)), op(1, Kind::Rid(0)), op(1, Kind::Mid(0)), op(1, Kind::PtList(1)), op(1, Kind::Pt(0)), op(1, Kind::Prov), op(0, Kind::Clear), op(0, Kind::Ssrc(0))];
+    let pkts = [Pkt { s: 0, p: 0, mid: 0, rid: 0 }, Pkt { s: 0, p: 0, mid: 1, rid: 0 }, Pkt { s: 0, p: 0, mid: 0, rid: 1 }, Pkt { s: 1, p: 0, mid: 1, rid: 0 }];
+    let mut out = vec![];
+    for b in &bases {
+        let specials: Vec<Option<(u8, Stat)>> = if thorough { vec![None, Some((0, Stat::ClosedAfter)), Some((0, Stat::ClosedBefore)), Some((0, Stat::Full))] } else { vec![None, Some((0, Stat::ClosedAfter))] };
+        for sp in specials {
+            for late in lates {
+                // listener 1 needs a channel: `used()` only covers the initial ops, so give it one
+                // through a harmless initial op when it registers late
+                let mut ops = b.clone();
+                if late.l == 1 {
+                    ops.push(op(1, Kind::Ssrc(2)));
+                }
+                let cfg = Cfg { ops, special: sp, mid_on: true, rid_on: true, layout: 0 };
+                for p in pkts {
+                    out.push((cfg.clone(), p, late));
+                }
+            }
+        }
+    }
+    out
+}
+
+pub fn conc_explore(cases: &[(Cfg, Pkt, Op)]) -> ConcStats {
+    use rayon::prelude::*;
+    let parts: Vec<ConcStats> = cases
+        .par_iter()
+        .map(|(cfg, p, late)| {
+            let conn = mk_conn();
+            let seq = [conc_run(cfg, *p, *late, Some(true), &[], &conn).1, conc_run(cfg, *p, *late, Some(false), &[], &conn).1];
+            let mut st = ConcStats { cases: 1, ..Default::default() };
+            let mut outcomes: std::collections::HashSet<ConcOutcome> = Default::default();
+            let last = std::cell::Cell::new(None);
+            let ex = crate::csched::explore(
+                None,
+                |schedule| {
+                    let (x, o) = conc_run(cfg, *p, *late, None, schedule, &conn);
+                    last.set(Some(o));
+                    x.expect("execution")
+                },
+                |x| {
+                    let o = last.take().expect("outcome");
+                    outcomes.insert(o);
+                    if x.deadlock {
+                        st.viol.push((format!("demux-concurrent;deadlock;late={}", late.name()), format!("schedule {}", x.schedule().join(" ")), conc_json(cfg, *p, *late, &x.choices())));
+                        return false;
+                    }
+                    if !seq.contains(&o) && st.viol.is_empty() {
+                        let m = |b: u8| -> String { (0..NL).filter(|l| b & (1 << l) != 0).map(|l| format!("L{l}")).collect::<Vec<_>>().join("+") };
+                        st.viol.push((
+                            format!("demux-concurrent;not-linearizable;registry={};status={};late={};packet={};first={};again={}", cfg.ops.iter().map(|o| o.name()).collect::<Vec<_>>().join(","), cfg.special.map_or("open".to_string(), |(l, s)| format!("L{l}:{}", s.name())), late.name(), p.short(), m(o.0), m(o.1)),
+                            format!("packet {} delivered while {} runs: received by [{}], the same packet delivered again afterwards by [{}], bound SSRC mask {:#b}; packet-then-operation gives {:?}, operation-then-packet gives {:?}; schedule: {}", p.short(), late.name(), m(o.0), m(o.1), o.2, seq[0], seq[1], x.schedule().join(" ")),
+                            conc_json(cfg, *p, *late, &x.choices()),
+                        ));
+                    }
+                    true
+                },
+            );
+            st.schedules = ex.schedules;
+            st.racy_cases = u64::from(outcomes.len() >= 2);
+            st
+        })
+        .collect();
+    let mut total = ConcStats::default();
+    for s in parts {
+        total.cases += s.cases;
+        total.schedules += s.schedules;
+        total.racy_cases += s.racy_cases;
+        total.viol.extend(s.viol);
+    }
+    total
 }
 
 // ───────────────────────────── reference demultiplexer ─────────────────────────────
